@@ -770,16 +770,22 @@ def _object_facts(cls: ast.ClassDef, fns: dict[str, ast.FunctionDef], attr_slots
                     k = _key(x)
                     if k and k.startswith('self.') and k not in top:
                         init[k] = None
-    # entry: top-level statements of __enter__ and (when __enter__ calls it unconditionally) of make_tempfile
+    # entry: the top-level statements of __enter__ in order, the call self.make_tempfile() expanded in place
     enter: dict[str, str] = {}
     ent, mk = fns['__enter__'], fns['make_tempfile']
-    calls_mk = any(isinstance(st, ast.Expr) and isinstance(st.value, ast.Call) and _key(st.value.func) == 'self.make_tempfile'
-                   and not st.value.args and not st.value.keywords for st in ent.body)
-    seqs = [ent.body] + ([mk.body] if calls_mk else [])
-    for body in seqs:
+
+    def stores(node: ast.AST) -> set[str]:
+        return {k for n in ast.walk(node) if isinstance(n, ast.Attribute) and isinstance(n.ctx, (ast.Store, ast.Del))
+                for k in [_key(n)] if k}
+
+    def scan(body: list[ast.stmt], in_enter: bool) -> None:
         for st in body:
             if st is not body[-1] and any(isinstance(x, ast.Return) for x in ast.walk(st)):
                 break      # an early return: what follows is not executed on every entry
+            if in_enter and isinstance(st, ast.Expr) and isinstance(st.value, ast.Call) \
+                    and _key(st.value.func) == 'self.make_tempfile' and not st.value.args and not st.value.keywords:
+                scan(mk.body, False)
+                continue
             if isinstance(st, ast.Assign) and len(st.targets) == 1 and (_key(st.targets[0]) or '').startswith('self.'):
                 v = _const_val(st.value)
                 k = _key(st.targets[0])
@@ -787,29 +793,26 @@ def _object_facts(cls: ast.ClassDef, fns: dict[str, ast.FunctionDef], attr_slots
                     enter[k] = v
                 else:
                     enter.pop(k, None)
-    if calls_mk:
-        # the temp-name loop is left only by the `break` after the open (obligation temp_loop_retries_only_on_file_exists):
-        # the name assigned before the attempt and the handle assigned from the open call are bound on every entry
-        cut = next((i for i, st in enumerate(mk.body[:-1]) if any(isinstance(x, ast.Return) for x in ast.walk(st))),
-                   len(mk.body))
-        loops = [n for n in mk.body[:cut + 1] if isinstance(n, ast.For)]
-        for loop in loops:
-            for st in loop.body:
-                if isinstance(st, ast.Assign) and len(st.targets) == 1 and _key(st.targets[0]) == 'self._temp_name' \
-                        and sibling_name(st.value) is not None:
-                    enter['self._temp_name'] = 'VTName'
-                if isinstance(st, ast.Try):
-                    bound = False
-                    for b in st.body:
-                        for x in ast.walk(b):
-                            if isinstance(x, ast.Assign) and len(x.targets) == 1 and _key(x.targets[0]) == 'self.temp' \
-                                    and any(isinstance(c, ast.Call) and isinstance(c.func, (ast.Attribute, ast.Name))
-                                            and (c.func.attr if isinstance(c.func, ast.Attribute) else c.func.id) == 'open'
-                                            for c in ast.walk(x.value)):
-                                bound = True
-                    # every arm of an if/else inside the try must bind it: count the open calls against the bindings
-                    if bound:
-                        enter['self.temp'] = 'VTemp'
+                continue
+            for k in stores(st):       # assigned somewhere inside a compound statement: value not known ...
+                enter.pop(k, None)
+            if isinstance(st, ast.For) and not in_enter:
+                # ... except in the temp-name loop, which is left only by the `break` after the open (obligation
+                # temp_loop_retries_only_on_file_exists): the name assigned before the attempt and the handle assigned
+                # from the open call are bound on every entry
+                for b in st.body:
+                    if isinstance(b, ast.Assign) and len(b.targets) == 1 and _key(b.targets[0]) == 'self._temp_name' \
+                            and sibling_name(b.value) is not None:
+                        enter['self._temp_name'] = 'VTName'
+                    if isinstance(b, ast.Try):
+                        binds = [x for t in b.body for x in ast.walk(t)
+                                 if isinstance(x, ast.Assign) and len(x.targets) == 1 and _key(x.targets[0]) == 'self.temp']
+                        if binds and all(any(isinstance(c, ast.Call) and isinstance(c.func, (ast.Attribute, ast.Name))
+                                             and (c.func.attr if isinstance(c.func, ast.Attribute) else c.func.id) == 'open'
+                                             for c in ast.walk(x.value)) for x in binds):
+                            enter['self.temp'] = 'VTemp'
+
+    scan(ent.body, True)
     # constants: attributes that no method other than __init__ assigns (or deletes)
     assigned: set[str] = set()
     for name, f in fns.items():
@@ -853,6 +856,9 @@ def _enter_ok(fn: ast.FunctionDef) -> bool:
             continue
         elif isinstance(st, ast.Assign) and all(isinstance(t, ast.Name) for t in st.targets):
             continue
+        elif isinstance(st, ast.Assign) and len(st.targets) == 1 and (_key(st.targets[0]) or '').startswith('self.') \
+                and _const_val(st.value) is not None:
+            continue       # a flag (re)set on entry: judged through o_enter (SM/AtomicReuse.v)
         else:
             return False
     return False
